@@ -200,7 +200,13 @@ class _HyperVolume:
         dimensions = len(self.referencePoint)
         nodeList = _MultiList(dimensions)
         nodes = [_MultiList.Node(dimensions, point) for point in front]
-        for i in range(dimensions):
+        # Sort from the last dimension to the first. The sort is stable, so nodes
+        # with equal i-th values keep in list i the order they have in list i+1:
+        # a node whose ``ignore`` flag was set in a higher dimension is then
+        # preceded by the node dominating it in every lower list. (With the lists
+        # built in increasing order, two nodes with equal projections could each
+        # be skipped in favour of the other and their volume was lost.)
+        for i in reversed(range(dimensions)):
             self.sortByDimension(nodes, i)
             nodeList.extend(nodes, i)
         self.list = nodeList
